@@ -1,0 +1,15 @@
+//go:build verif
+
+package index
+
+import (
+	"github.com/sourcegraph/zoekt"
+	"github.com/sourcegraph/zoekt/internal/ctags"
+)
+
+// VerifTagsToSections returns tagsToSections.Convert bound to one converter, so that callers exercise the
+// reuse of its newline buffer across conversions. Verification hook; not part of the normal build.
+func VerifTagsToSections() func(content []byte, tags []*ctags.Entry) ([]DocumentSection, []*zoekt.Symbol, error) {
+	var t tagsToSections
+	return t.Convert
+}
